@@ -3,3 +3,4 @@ import PK.Model.Lookup
 import PK.Model.Hand
 import PK.Model.State
 import PK.Model.Machine
+import PK.Properties.C08
